@@ -20,7 +20,38 @@ import (
 	"go.opentelemetry.io/collector/pdata/pprofile"
 	"go.opentelemetry.io/collector/pdata/ptrace"
 	"go.opentelemetry.io/collector/processor/processortest"
+	"go.opentelemetry.io/otel/sdk/metric/metricdata"
 )
+
+// c18Sum: total of an int64 sum metric over all attribute sets (0 if it was never recorded)
+func c18Sum(tel *componenttest.Telemetry, name string) int64 {
+	m, err := tel.GetMetric(name)
+	if err != nil {
+		return 0
+	}
+	s, ok := m.Data.(metricdata.Sum[int64])
+	if !ok {
+		return 0
+	}
+	var total int64
+	for _, dp := range s.DataPoints {
+		total += dp.Value
+	}
+	return total
+}
+
+type c18Counts struct{ acc, ref, in, out int64 }
+
+func c18Read(tel *componenttest.Telemetry) c18Counts {
+	var c c18Counts
+	for _, n := range []string{"log_records", "spans", "metric_points"} {
+		c.acc += c18Sum(tel, "otelcol_processor_accepted_"+n)
+		c.ref += c18Sum(tel, "otelcol_processor_refused_"+n)
+	}
+	c.in = c18Sum(tel, "otelcol_processor_incoming_items")
+	c.out = c18Sum(tel, "otelcol_processor_outgoing_items")
+	return c
+}
 
 type c18Down struct {
 	calls int
@@ -51,6 +82,8 @@ func TestVerifC18Proc(t *testing.T) {
 		}
 		f := &factory{memoryLimiters: map[component.Config]*memoryLimiterProcessor{}}
 		set := processortest.NewNopSettings(processortest.NopType)
+		tel := componenttest.NewTelemetry()
+		set.TelemetrySettings = tel.NewTelemetrySettings()
 		down := &c18Down{}
 		var sentL plog.Logs
 		var sentT ptrace.Traces
@@ -104,26 +137,41 @@ func TestVerifC18Proc(t *testing.T) {
 			}
 			down.calls, down.same = 0, false
 			sig := r.IntN(4)
-			out.Linef("op consume refusing=%d next=%s sig=%d", vB(refusing), nx, sig)
+			items := 1 + r.IntN(4)
+			out.Linef("op consume refusing=%d next=%s sig=%d n=%d", vB(refusing), nx, sig, items)
+			before := c18Read(tel)
 			var err error
 			switch sig {
 			case 0:
 				sentL = plog.NewLogs()
-				sentL.ResourceLogs().AppendEmpty().ScopeLogs().AppendEmpty().LogRecords().AppendEmpty().Body().SetInt(int64(i))
+				lrs := sentL.ResourceLogs().AppendEmpty().ScopeLogs().AppendEmpty().LogRecords()
+				for j := 0; j < items; j++ {
+					lrs.AppendEmpty().Body().SetInt(int64(i))
+				}
 				err = pl.ConsumeLogs(bg, sentL)
 			case 1:
 				sentT = ptrace.NewTraces()
-				sentT.ResourceSpans().AppendEmpty().ScopeSpans().AppendEmpty().Spans().AppendEmpty().SetName("s")
+				ss := sentT.ResourceSpans().AppendEmpty().ScopeSpans().AppendEmpty().Spans()
+				for j := 0; j < items; j++ {
+					ss.AppendEmpty().SetName("s")
+				}
 				err = pt.ConsumeTraces(bg, sentT)
 			case 2:
 				sentM = pmetric.NewMetrics()
-				sentM.ResourceMetrics().AppendEmpty().ScopeMetrics().AppendEmpty().Metrics().AppendEmpty().SetEmptyGauge().DataPoints().AppendEmpty().SetIntValue(1)
+				dps := sentM.ResourceMetrics().AppendEmpty().ScopeMetrics().AppendEmpty().Metrics().AppendEmpty().SetEmptyGauge().DataPoints()
+				for j := 0; j < items; j++ {
+					dps.AppendEmpty().SetIntValue(1)
+				}
 				err = pm.ConsumeMetrics(bg, sentM)
 			default:
 				sentP = pprofile.NewProfiles()
-				sentP.ResourceProfiles().AppendEmpty().ScopeProfiles().AppendEmpty().Profiles().AppendEmpty().Sample().AppendEmpty()
+				smp := sentP.ResourceProfiles().AppendEmpty().ScopeProfiles().AppendEmpty().Profiles().AppendEmpty().Sample()
+				for j := 0; j < items; j++ {
+					smp.AppendEmpty()
+				}
 				err = pp.ConsumeProfiles(bg, sentP)
 			}
+			after := c18Read(tel)
 			rs := "ok"
 			switch {
 			case err == nil:
@@ -135,7 +183,11 @@ func TestVerifC18Proc(t *testing.T) {
 					out.Linef("viol sig=C18/processor/downstream-result-not-returned %v", err)
 				}
 			}
-			out.Linef("obs res fwd=%d %s permanent=%d", vB(down.calls > 0), rs, vB(consumererror.IsPermanent(err)))
+			out.Linef("obs res fwd=%d %s permanent=%d acc=%d ref=%d in=%d out=%d", vB(down.calls > 0), rs, vB(consumererror.IsPermanent(err)),
+				after.acc-before.acc, after.ref-before.ref, after.in-before.in, after.out-before.out)
+			// the property's clauses for this call, judged by the Lean oracle checkConsume (proved sound)
+			out.Linef("tr oc refusing=%d fwd=%d same=%d nil=%d refused=%d perm=%d eqnext=%d", vB(refusing), vB(down.calls > 0), vB(down.calls == 1 && down.same),
+				vB(err == nil), vB(errors.Is(err, memorylimiter.ErrDataRefused)), vB(consumererror.IsPermanent(err)), vB(err == down.err))
 			// direct oracles
 			if refusing {
 				refusals++
@@ -153,13 +205,28 @@ func TestVerifC18Proc(t *testing.T) {
 		}
 		// shut down three of the four sharers: the limiter must still be running (ref count 1), then the last one
 		for k, c := range comps {
-			if err := c.Shutdown(bg); err != nil {
-				out.Linef("viol sig=C18/processor/shutdown-failed k=%d %v", k, err)
+			func() {
+				defer func() {
+					if p := recover(); p != nil {
+						out.Linef("viol sig=C18/processor/panic-in-shutdown k=%d %v", k, p)
+					}
+				}()
+				if err := c.Shutdown(bg); err != nil {
+					out.Linef("viol sig=C18/processor/shutdown-failed k=%d %v", k, err)
+				}
+			}()
+		}
+		func() {
+			defer func() {
+				if p := recover(); p != nil {
+					out.Linef("viol sig=C18/processor/panic-in-shutdown limiter %v", p)
+				}
+			}()
+			if err := ml.Shutdown(bg); !errors.Is(err, memorylimiter.ErrShutdownNotStarted) {
+				out.Linef("viol sig=C18/refcount/limiter-still-running-after-last-processor-shutdown %v", err)
 			}
-		}
-		if err := ml.Shutdown(bg); !errors.Is(err, memorylimiter.ErrShutdownNotStarted) {
-			out.Linef("viol sig=C18/refcount/limiter-still-running-after-last-processor-shutdown %v", err)
-		}
+		}()
+		_ = tel.Shutdown(bg)
 		if refusals > 0 && refusals < n {
 			out.Linef("nt")
 		}
